@@ -58,12 +58,18 @@ V18 == Val("int", 1, AIs(LFalse), TRUE)                 \* (1, {"a": False})
 V19 == Val("none", 0, Empty, FALSE)                     \* None
 V20 == Val("tuple", 0, Empty, FALSE)                    \* ()
 V21 == Val("int", 1, ABIs(LStr("")), TRUE)              \* (1, {"a": {"b": ""}})
-AllVals == <<V1, V2, V3, V4, V5, V6, V7, V8, V9, V10, V11, V12, V13, V14, V15, V16, V17, V18, V19, V20, V21>>
+\* values of other shapes (the field sub tells the harness how to build them; the specification does not
+\* look at it): a namedtuple pair with an OrderedDict context is a (data, context) pair like any other,
+\* a list [data, {...}] is not a pair at all - it is data (of type list) without a context
+V22 == [Val("str", 1, ABIs(LStr("x")), TRUE) EXCEPT !.sub = "duck"]           \* Pair("s", OrderedDict(a={"b": "x"}))
+V23 == [Val("int", 2, AIs(Empty), TRUE) EXCEPT !.sub = "duck"]                \* Pair(2, OrderedDict(a={}))
+V24 == [Val("list", 2, Empty, FALSE) EXCEPT !.sub = "listpair"]               \* [1, {"a": {}}]
+AllVals == <<V1, V2, V3, V4, V5, V6, V7, V8, V9, V10, V11, V12, V13, V14, V15, V16, V17, V18, V19, V20, V21, V22, V23, V24>>
 
 \* constant leaves: every outcome combination of the items of a container
 AbsLeaves == {Fn("yes"), Fn("no"), Fn("boom")}
 AN == <<"a", "None">>
-ConcLeaves == {Str(A1), Str(ABX), Str(AN), Cls("int"), Cls("str"), Fn("pos"), Fn("len"), Fn("boom"), Fn("isnone")}
+ConcLeaves == {Str(A1), Str(ABX), Str(AN), Cls("int"), Cls("str"), Cls("ucls"), Fn("pos"), Fn("objpos"), Fn("len"), Fn("boom"), Fn("isnone")}
 SCs == {SC(p, q, r) : p \in {<<>>, A1, AB}, r \in BOOLEAN,
                       q \in {"isdict", "eq1", "gt0", "hasx", "isnone", "eq0", "truthy", "always",
                              "cbool", "cstr", "cint", "cdict", "cuser"}}
@@ -129,7 +135,7 @@ Asts == CASE U = "mc1" -> MCDepth1(U) [] U = "mc2q" -> MCDepth2q(U) [] U = "mc2"
           [] U = "ex1" -> ExDepth1(U) [] U = "ex2q" -> ExDepth2q(U) [] U = "ex23q" -> ExDepth2q(U) \cup ExDepth3(U) [] U = "ex2" -> ExDepth2(U) [] U = "ex3" -> ExDepth3(U)
 Flows == CASE F = "one" -> {<<V3>>, <<V2>>, <<V12>>}
            [] F = "two" -> {<<V2>>, <<V12>>}
-           [] F = "tiny" -> SeqsUpTo({V3, V4, V12}, 3)
+           [] F = "tiny" -> SeqsUpTo({V3, V4, V12}, 2)
            [] F = "small" -> SeqsUpTo({V2, V3, V4, V6, V12}, 3)
            [] F = "big" -> SeqsUpTo({V1, V2, V3, V4, V6, V8, V12}, 4)
 
@@ -163,8 +169,9 @@ VARIABLES ast, flow,   \* the scenario: Filter(ast).run(flow)
           results,     \* outcome of the selector for each value tested
           status,      \* "idle" (between values) | "eval" | "done" | "raised"
           stack,       \* frames [ob, i]: __call__s in progress, innermost last
-          ctl          \* [m |-> "call", ob] | [m |-> "ret", r] | [m |-> "exc"] | [m |-> "none"]
-vars == <<ast, flow, pos, out, results, status, stack, ctl>>
+          ctl,         \* [m |-> "call", ob] | [m |-> "ret", r] | [m |-> "exc"] | [m |-> "none"]
+          first        \* what the first run of the Filter gave (status "none" during the first run)
+vars == <<ast, flow, pos, out, results, status, stack, ctl, first>>
 
 Nil == [o |-> "nil"]
 CCall(ob) == [m |-> "call", ob |-> ob, r |-> "-"]
@@ -176,24 +183,31 @@ Top == stack[Len(stack)]
 Pop == SubSeq(stack, 1, Len(stack) - 1)
 Outcome(r) == IF r = "E" THEN CExc ELSE CRet(r)
 
+NoFirst == [status |-> "none", out |-> <<>>, results |-> <<>>]
 Init == /\ ast \in Asts /\ flow \in Flows
         /\ pos = 0 /\ out = <<>> /\ results = <<>> /\ status = "idle" /\ stack = <<>> /\ ctl = CNone
+        /\ first = NoFirst
 
 Scen == UNCHANGED <<ast, flow>>
 \* Filter.run: next value of the flow -> selector(value)
 FilterPull == /\ status = "idle" /\ pos < Len(flow)
               /\ pos' = pos + 1 /\ status' = "eval" /\ ctl' = CCall(BuildObj(ast))
-              /\ Scen /\ UNCHANGED <<out, results, stack>>
+              /\ Scen /\ UNCHANGED <<out, results, stack, first>>
 FilterEnd == /\ status = "idle" /\ pos = Len(flow)
-             /\ status' = "done" /\ Scen /\ UNCHANGED <<pos, out, results, stack, ctl>>
+             /\ status' = "done" /\ Scen /\ UNCHANGED <<pos, out, results, stack, ctl, first>>
+\* the same Filter object is run over the same flow a second time
+Again == /\ F \in {"tiny", "small", "big"}                       \* (the Filter universes)
+         /\ status \in {"done", "raised"} /\ first.status = "none"
+         /\ first' = [status |-> status, out |-> out, results |-> results]
+         /\ pos' = 0 /\ out' = <<>> /\ results' = <<>> /\ status' = "idle" /\ stack' = <<>> /\ ctl' = CNone /\ Scen
 FilterDecide == /\ status = "eval" /\ stack = <<>> /\ ctl.m \in {"ret", "exc"}
                 /\ LET r == IF ctl.m = "exc" THEN "E" ELSE ctl.r IN
                    /\ results' = Append(results, r)
                    /\ out' = IF r = "T" THEN Append(out, flow[pos]) ELSE out
                    /\ status' = IF r = "E" THEN "raised" ELSE "idle"
-                /\ ctl' = CNone /\ Scen /\ UNCHANGED <<pos, stack>>
+                /\ ctl' = CNone /\ Scen /\ UNCHANGED <<pos, stack, first>>
 
-Eval1 == status = "eval" /\ Scen /\ UNCHANGED <<pos, out, results, status>>
+Eval1 == status = "eval" /\ Scen /\ UNCHANGED <<pos, out, results, status, first>>
 \* Selector.__call__ / Not.__call__: try: self._selector(value)
 CallSelector == /\ Eval1 /\ ctl.m = "call" /\ ctl.ob.o \in {"S", "N"}
                 /\ stack' = Append(stack, Frame(ctl.ob, 0)) /\ ctl' = CCall(ctl.ob.in)
@@ -226,7 +240,7 @@ CatchExc == /\ Eval1 /\ ctl.m = "exc" /\ stack # <<>> /\ Top.ob.o \in {"S", "N"}
 Propagate == /\ Eval1 /\ ctl.m = "exc" /\ stack # <<>> /\ ~(Top.ob.o \in {"S", "N"} /\ ~Top.ob.roe)
              /\ ctl' = CExc /\ stack' = Pop
 
-Next == FilterPull \/ FilterEnd \/ FilterDecide \/ CallSelector \/ CallAndOr \/ CallLeaf \/ CallSelectContext
+Next == FilterPull \/ FilterEnd \/ FilterDecide \/ Again \/ CallSelector \/ CallAndOr \/ CallLeaf \/ CallSelectContext
         \/ RetSelector \/ RetAndOr \/ CatchExc \/ Propagate
 Spec == Init /\ [][Next]_vars
 
@@ -244,6 +258,9 @@ RoeFalseNeverRaises == ~ast.roe => status # "raised"
 FilterKeeps == status \in {"done", "raised"} =>
                  LET e == FilterSem(ast, flow) IN out = e.out /\ (status = "raised") = e.raised
 FilterOrder == \A j \in 1..Len(out) : \E i \in 1..pos : out[j] = flow[i]
+\* a Filter can be run again: the second run gives what the first gave
+SecondRunSame == (first.status # "none" /\ status \in {"done", "raised"}) =>
+                   (status = first.status /\ out = first.out /\ results = first.results)
 \* without errors the result is two-valued logic
 Classical == (status = "idle" /\ pos = 0) =>
                \A j \in 1..Len(flow) : Total(ast, flow[j]) => Eval(ast, flow[j]) = B(Holds(ast, flow[j]))
@@ -262,7 +279,7 @@ StackBound == Len(stack) <= 8
 (***************************************************************************)
 \* one record per specification with the outcome on each of the eight values
 XInit == /\ ast \in Asts /\ flow = AllVals
-         /\ pos = 0 /\ out = <<>> /\ results = <<>> /\ status = "idle" /\ stack = <<>> /\ ctl = CNone
+         /\ pos = 0 /\ out = <<>> /\ results = <<>> /\ status = "idle" /\ stack = <<>> /\ ctl = CNone /\ first = NoFirst
 XSpec == XInit /\ [][FALSE]_vars
 \* (the eight values themselves are attached to the record of one specification)
 FirstAst == CHOOSE a \in Asts : TRUE
@@ -271,6 +288,6 @@ EmitVec == PrintT(ToJson([ast |-> ast,
                           res |-> [j \in 1..Len(AllVals) |-> IF Defined(ast, AllVals[j]) THEN Eval(ast, AllVals[j]) ELSE "U"],
                           vals |-> IF ast = FirstAst THEN AllVals ELSE <<>>]))
 \* Filter behaviours: the machine's output
-EmitFilter == status \in {"done", "raised"} =>
+EmitFilter == (status \in {"done", "raised"} /\ first.status # "none") =>
                 PrintT(ToJson([ast |-> ast, flow |-> flow, out |-> out, raised |-> (status = "raised")]))
 =============================================================================
